@@ -341,6 +341,30 @@ func (e *Engine) TryReplay(fc *FnCtx, ob *Obligation) *ReplayResult {
 	for _, h := range c.ReplayHints {
 		strs[h] = true
 	}
+	// short literals combined with each other and with a plain letter: inputs
+	// "just next to" the boundary values the contract names (".a", "a/", "./.")
+	nStr := 0
+	for _, p := range pars {
+		if p.kind == "string" || p.kind == "bytes" {
+			nStr++
+		}
+	}
+	if nStr <= 2 {
+		var base []string
+		for k := range strs {
+			if len(k) > 0 && len(k) <= 4 {
+				base = append(base, k)
+			}
+		}
+		sort.Strings(base)
+		if len(base) <= 6 {
+			for _, a := range base {
+				for _, b := range base {
+					strs[a+b] = true
+				}
+			}
+		}
+	}
 	var intList []string
 	for k := range ints {
 		if reNum.MatchString(k) && len(k) < 19 {
